@@ -26,9 +26,9 @@ func inspect1Main() {
 	fmt.Println(o.String())
 }
 
-type rawSx string
+type c09_rawSx string
 
-func (r rawSx) String() string { return string(r) }
+func (r c09_rawSx) String() string { return string(r) }
 
 func genC09(c *Ctx) {
 	dir := filepath.Join(c.Tmp, "c09")
@@ -107,7 +107,7 @@ func genC09(c *Ctx) {
 				it = pool[c.R.Intn(len(pool))]
 			}
 			o, _ := inspectObs(it.path)
-			input = append(input, SL{S(it.tag), rawSx(it.fresh)})
+			input = append(input, SL{S(it.tag), c09_rawSx(it.fresh)})
 			obs = append(obs, o)
 		}
 		c.Emit("history", input, obs)
@@ -115,7 +115,7 @@ func genC09(c *Ctx) {
 	// every pool element once more, after all those histories, against its fresh baseline
 	for _, it := range pool {
 		o, _ := inspectObs(it.path)
-		c.Emit("after:"+it.tag, SL{SL{S(it.tag), rawSx(it.fresh)}}, SL{o})
+		c.Emit("after:"+it.tag, SL{SL{S(it.tag), c09_rawSx(it.fresh)}}, SL{o})
 	}
 	os.RemoveAll(dir)
 }
